@@ -313,13 +313,14 @@ theorem resolve_getAt {L : OpId} {b : Nat} {d : Doc} (I : DP.DInv L b d) (hk : K
         · rename_i c hc
           rw [DP.arrView_eq] at hc
           simp only [List.getElem?_map, Option.map_map] at hc
-          cases hch : ((sl.filter (slotLive d)).map (·.2))[i]? with
-          | none => simp [List.getElem?_map] at hch; simp [hch] at hc
-          | some ch =>
-            have hc2 : c = (d.viewAt ch).canon := by
-              simp only [List.getElem?_map] at hch
-              rw [hch] at hc
+          cases hx : (sl.filter (slotLive d))[i]? with
+          | none => simp [hx] at hc
+          | some x =>
+            have hch : ((sl.filter (slotLive d)).map (·.2))[i]? = some x.2 := by simp [hx]
+            have hc2 : c = (d.viewAt x.2).canon := by
+              rw [hx] at hc
               simpa using hc.symm
+            generalize x.2 = ch at hch hc2
             obtain ⟨hmem, ht'⟩ := DP.mem_of_getElem?_filter hch
             obtain ⟨hal, hgb⟩ := alive_kid I ha hn (by rw [hkind]; exact hmem) ht'
             rw [hc2] at h
@@ -349,5 +350,273 @@ theorem resolve_root {L : OpId} {b : Nat} {d : Doc} (I : DP.DInv L b d) (hk : Ke
     ∃ π hd, d.locate π Ts.oldest = some hd ∧ d.resolve p Ts.oldest = .ok hd ∧ (d.viewAt hd).canon = s ∧
       ∀ new, PD.setAt new p d.view.canon = PlainDoc.replace new π d.view.canon :=
   resolve_getAt I hk p Ts.oldest s (alive_root I) h
+
+/-! ## 3. one operation, on the plain tree -/
+
+/-- the call that `patchCall` builds for an operation whose last segment is `k`, decided on the plain subtree `c0`
+    the parent path leads to -/
+def callOf (hd : Ts) (k : String) (op : PatchOp) : JVal → Option Call
+  | .obj _ =>
+    match op with
+    | .add _ v => some (.dput hd k v)
+    | .replace _ v => some (.dput hd k v)
+    | .remove _ => some (.dremove hd k)
+  | .arr l =>
+    match op with
+    | .add _ v => if k = "-" then some (.dinsert hd l.length [v]) else k.toInt?.map (fun i => Call.dinsert hd i [v])
+    | .replace _ v => k.toInt?.map (fun i => Call.dupdate hd i [v])
+    | .remove _ => k.toInt?.map (fun i => Call.ddelete hd i)
+  | _ => none
+
+theorem put_of_replace {t t' s' : JVal} {π : List PlainDoc.Seg} (h : PlainDoc.replace s' π t = some t') :
+    PlainDoc.put t π s' = t' := by
+  simp [PlainDoc.put, h]
+
+theorem goodV_keys {v : JVal} (h : GoodV v) : DP.CallKeysND (.dput Ts.oldest "" v) ∧ JKeysNDList [v] := by
+  have := jkeys_of_canonical v h.2
+  exact ⟨this, by simp [JKeysNDList, this]⟩
+
+/-- the plain tree reacts to the call as `applyAt` says -/
+theorem step_of_apply {t t' c0 c' : JVal} {π : List PlainDoc.Seg} (hd : Ts) {k : String} {op : PatchOp}
+    (hsub : PlainDoc.sub π t = some c0) (happ : applyAt op [k] c0 = some c')
+    (hrep : PlainDoc.replace c' π t = some t') (hgood : Carr GoodV op) :
+    ∃ c, callOf hd k op c0 = some c ∧ (∃ ret, PlainDoc.step t π c = (t', .ok ret)) ∧ PlainDoc.handleOf c = some hd ∧
+      DP.CallKeysND c ∧ DP.isMutating c = true := by
+  cases c0 with
+  | null => simp [applyAt] at happ
+  | bool _ => simp [applyAt] at happ
+  | num _ => simp [applyAt] at happ
+  | str _ => simp [applyAt] at happ
+  | obj kvs =>
+    cases op with
+    | add p v =>
+      obtain ⟨hn, hc⟩ := hgood
+      simp only [applyAt, Option.some.injEq] at happ
+      subst happ
+      refine ⟨.dput hd k v, rfl, ⟨.val (alFind k kvs), ?_⟩, rfl, jkeys_of_canonical v hc, rfl⟩
+      simp only [PlainDoc.step, hsub, hn, Bool.false_eq_true, if_false, canon_of_canonical v hc, put_of_replace hrep]
+    | replace p v =>
+      obtain ⟨hn, hc⟩ := hgood
+      simp only [applyAt, Option.some.injEq] at happ
+      subst happ
+      refine ⟨.dput hd k v, rfl, ⟨.val (alFind k kvs), ?_⟩, rfl, jkeys_of_canonical v hc, rfl⟩
+      simp only [PlainDoc.step, hsub, hn, Bool.false_eq_true, if_false, canon_of_canonical v hc, put_of_replace hrep]
+    | remove p =>
+      simp only [applyAt] at happ
+      cases hf : alFind k kvs with
+      | none => simp [hf] at happ
+      | some old =>
+        simp only [hf, Option.isSome_some, if_true, Option.some.injEq] at happ
+        subst happ
+        refine ⟨.dremove hd k, rfl, ⟨.val (some old), ?_⟩, rfl, trivial, rfl⟩
+        simp only [PlainDoc.step, hsub, hf, put_of_replace hrep]
+  | arr l =>
+    cases op with
+    | add p v =>
+      obtain ⟨hn, hc⟩ := hgood
+      have hk1 : JKeysNDList [v] := by simp [JKeysNDList, jkeys_of_canonical v hc]
+      have hany : [v].any JVal.hasNull = false := by simp [hn]
+      simp only [applyAt] at happ
+      by_cases hk : k = "-"
+      · simp only [hk, if_true, Option.some.injEq] at happ
+        subst happ
+        refine ⟨.dinsert hd l.length [v], by simp [callOf, hk], ⟨.none, ?_⟩, rfl, hk1, rfl⟩
+        have h1 : ¬ ((l.length : Int) < 0) := by omega
+        simp only [PlainDoc.step, hsub, h1, gt_iff_lt, lt_self_iff_false, decide_false, Bool.or_self,
+          Bool.false_eq_true, if_false, hany, Int.toNat_natCast, List.take_length, List.drop_length,
+          List.append_nil, List.map_cons, List.map_nil, canon_of_canonical v hc, put_of_replace hrep]
+      · simp only [hk, if_false] at happ
+        cases hi : k.toNat? with
+        | none => simp [hi] at happ
+        | some i =>
+          simp only [hi] at happ
+          split_ifs at happ with hle
+          simp only [Option.some.injEq] at happ
+          subst happ
+          have hint := String.toInt?_eq_some_of_toNat?_eq_some hi
+          refine ⟨.dinsert hd i [v], by simp [callOf, hk, hint], ⟨.none, ?_⟩, rfl, hk1, rfl⟩
+          have h1 : ¬ ((i : Int) < 0) := by omega
+          have h2 : ¬ ((i : Int) > l.length) := by omega
+          simp only [PlainDoc.step, hsub, h1, h2, decide_false, Bool.or_self,
+            Bool.false_eq_true, if_false, hany, Int.toNat_natCast,
+            List.map_cons, List.map_nil, canon_of_canonical v hc, put_of_replace hrep]
+    | replace p v =>
+      obtain ⟨hn, hc⟩ := hgood
+      have hk1 : JKeysNDList [v] := by simp [JKeysNDList, jkeys_of_canonical v hc]
+      have hany : [v].any JVal.hasNull = false := by simp [hn]
+      simp only [applyAt] at happ
+      cases hi : k.toNat? with
+      | none => simp [hi] at happ
+      | some i =>
+        simp only [hi] at happ
+        split_ifs at happ with hlt
+        simp only [Option.some.injEq] at happ
+        subst happ
+        have hint := String.toInt?_eq_some_of_toNat?_eq_some hi
+        refine ⟨.dupdate hd i [v], by simp [callOf, hint], ⟨.vals ((l.drop i).take 1), ?_⟩, rfl, hk1, rfl⟩
+        have hr : PlainDoc.inRange i (1 : Nat) l.length = true := by
+          simp [PlainDoc.inRange]; omega
+        simp only [PlainDoc.step, hsub, List.length_singleton, hr, Bool.not_true, Bool.false_eq_true, if_false, hany, Int.toNat_natCast,
+          List.map_cons, List.map_nil, canon_of_canonical v hc, List.length_singleton, put_of_replace hrep]
+    | remove p =>
+      simp only [applyAt] at happ
+      cases hi : k.toNat? with
+      | none => simp [hi] at happ
+      | some i =>
+        simp only [hi] at happ
+        split_ifs at happ with hlt
+        simp only [Option.some.injEq] at happ
+        subst happ
+        have hint := String.toInt?_eq_some_of_toNat?_eq_some hi
+        refine ⟨.ddelete hd i, by simp [callOf, hint], ⟨.val (l.drop i).head?, ?_⟩, rfl, trivial, rfl⟩
+        have hr : PlainDoc.inRange i 1 l.length = true := by
+          simp [PlainDoc.inRange]; omega
+        simp only [PlainDoc.step, hsub, hr, Bool.not_true, Bool.false_eq_true, if_false, Int.toNat_natCast,
+          put_of_replace hrep]
+
+theorem isNull_of_hasNull {v : JVal} (h : v.hasNull = false) : v.isNull = false := by
+  cases v <;> simp_all [JVal.hasNull, JVal.isNull]
+
+/-- `patchCall` builds exactly that call -/
+theorem patchCall_eq {L : OpId} {b : Nat} {d : Doc} (I : DP.DInv L b d) (hk : KeysND d) {op : PatchOp}
+    {p : List String} {k : String} {hd : Ts} {c0 : JVal} {c : Call} (hpath : op.path = p ++ [k])
+    (hres : d.resolve p Ts.oldest = .ok hd) (hal : Alive d hd) (hview : (d.viewAt hd).canon = c0)
+    (hcall : callOf hd k op c0 = some c) (hgood : Carr GoodV op) : d.patchCall op = .ok (some c) := by
+  have hg := I.dg hk
+  obtain ⟨n, hn⟩ := Option.isSome_iff_exists.mp hal.2
+  unfold Doc.patchCall
+  rw [hpath]
+  simp only [List.reverse_append, List.reverse_singleton, List.singleton_append, List.reverse_reverse, hres]
+  cases hkind : n.kind with
+  | elem v =>
+    obtain ⟨e1, e2, e3⟩ := DP.shape_elem I hn hkind
+    rw [e1] at hview
+    subst hview
+    cases v <;> first | (simp [callOf] at hcall; done) | (exfalso; exact e2 _ rfl) | (exfalso; exact e3 _ rfl)
+  | obj m sz =>
+    rw [DP.shape_obj hg hn hkind] at hview
+    subst hview
+    have hko := DP.kindOf_obj' hn hkind
+    cases op with
+    | add q v =>
+      simp only [callOf, Option.some.injEq] at hcall
+      subst hcall
+      simp [hko, isNull_of_hasNull hgood.1]
+    | replace q v =>
+      simp only [callOf, Option.some.injEq] at hcall
+      subst hcall
+      simp [hko, isNull_of_hasNull hgood.1]
+    | remove q =>
+      simp only [callOf, Option.some.injEq] at hcall
+      subst hcall
+      simp [hko]
+  | arr sl sz =>
+    rw [DP.shape_arr hg hn hkind] at hview
+    subst hview
+    have hka := DP.kindOf_arr' hn hkind
+    have hsize : (d.arrRga hd).size = ((DP.arrView d sl).map JVal.canon).length := by
+      rw [DP.arrRga_eq hn hkind, List.length_map, DP.arrView_length]
+      exact DP.arr_size I hn hkind
+    cases op with
+    | add q v =>
+      simp only [callOf] at hcall
+      simp only [hka, isNull_of_hasNull hgood.1, Bool.false_eq_true, if_false, reduceCtorEq, if_true]
+      by_cases hkd : k = "-"
+      · simp only [hkd, if_true, Option.some.injEq] at hcall ⊢
+        rw [← hcall, hsize]
+      · simp only [hkd, if_false] at hcall ⊢
+        cases hi : k.toInt? with
+        | none => simp [hi] at hcall
+        | some i =>
+          simp only [hi, Option.map_some, Option.some.injEq] at hcall
+          rw [← hcall]
+    | replace q v =>
+      simp only [callOf] at hcall
+      simp only [hka, isNull_of_hasNull hgood.1, Bool.false_eq_true, if_false, reduceCtorEq, if_true]
+      cases hi : k.toInt? with
+      | none => simp [hi] at hcall
+      | some i =>
+        simp only [hi, Option.map_some, Option.some.injEq] at hcall
+        rw [← hcall]
+    | remove q =>
+      simp only [callOf] at hcall
+      simp only [hka, reduceCtorEq, if_false, if_true]
+      cases hi : k.toInt? with
+      | none => simp [hi] at hcall
+      | some i =>
+        simp only [hi, Option.map_some, Option.some.injEq] at hcall
+        rw [← hcall]
+
+/-! ## 4. one operation, on the replica -/
+
+theorem mutating_prepare (d : Doc) (c : Call) (hm : DP.isMutating c = true) :
+    (∃ e, c.prepare (.doc d) = .done (.err e)) ∨ ∃ b post, c.prepare (.doc d) = .op b post ∧ b.isMeta = false := by
+  cases c <;> simp only [DP.isMutating, Bool.false_eq_true] at hm
+  all_goals simp only [Call.prepare, Call.prepareDoc]
+  all_goals repeat' split
+  all_goals first
+    | exact Or.inl ⟨_, rfl⟩
+    | exact Or.inr ⟨_, _, rfl, rfl⟩
+
+theorem call_of_panic {r : Replica} {c : Call} {b : OpBody} {post : Ret → Ret} {w : String}
+    (h : c.prepare r.state = .op b post) (hm : b.isMeta = false)
+    (he : execLocal r.state r.opId.next.ts b = .panic w) : (r.call c).2 = .panic w := by
+  unfold Replica.call
+  rw [h]
+  simp only [Replica.callLocal, Replica.execLocalBase, hm, Bool.false_eq_true, if_false, he, mapOut]
+
+theorem next_ne (L : OpId) : L.next ≠ L := by
+  intro h
+  have : L.next.lamport = L.lamport := by rw [h]
+  simp [OpId.next] at this
+
+/-- a mutating call that the plain tree accepts: what `prepare` and `execLocal` do, the new view, the invariant -/
+theorem exec_step {L : OpId} {d : Doc} (I : DP.DInv L 0 d) (hk : KeysND d) {π : List PlainDoc.Seg} {hd : Ts} {c : Call}
+    {t' : JVal} {ret : Ret} (hloc : d.locate π Ts.oldest = some hd) (hh : PlainDoc.handleOf c = some hd)
+    (hck : DP.CallKeysND c) (hm : DP.isMutating c = true) (hstep : PlainDoc.step d.view.canon π c = (t', .ok ret)) :
+    ∃ b post d' bd ret' b', c.prepare (.doc d) = .op b post ∧ b.isMeta = false ∧
+      execLocal (.doc d) L.next.ts b = .ok (.doc d', bd, ret') ∧ d'.view.canon = t' ∧ DP.DInv L b' d' ∧ KeysND d' := by
+  let r : Replica := { (default : Replica) with opId := L, state := .doc d }
+  have hs : r.state = .doc d := rfl
+  obtain ⟨heff, href⟩ := DP.call_full (r := r) hs I c
+  obtain ⟨d', hst, hview, hout⟩ := href π hd hk hck hloc hh
+  rw [hstep] at hview hout
+  simp only at hview hout
+  have hok : ∃ v, (r.call c).2 = .ok v := by
+    cases h2 : (r.call c).2 with
+    | ok v => exact ⟨v, rfl⟩
+    | err e => rw [h2] at hout; simp [PlainDoc.outCanon] at hout
+    | panic w => rw [h2] at hout; simp [PlainDoc.outCanon] at hout
+  obtain ⟨v, hv⟩ := hok
+  rcases mutating_prepare d c hm with ⟨e, hp⟩ | ⟨b, post, hp, hmeta⟩
+  · have := DP.call_of_done (r := r) (c := c) hp
+    rw [this] at hv
+    cases hv
+  · cases he : execLocal r.state r.opId.next.ts b with
+    | err e =>
+      have := DP.call_of_err (r := r) hp hmeta he
+      rw [this] at hv
+      cases hv
+    | panic w =>
+      have := call_of_panic (r := r) hp hmeta he
+      rw [this] at hv
+      cases hv
+    | ok x =>
+      obtain ⟨s', bd, ret'⟩ := x
+      have hcall := DP.call_of_ok (r := r) hp hmeta he
+      rw [hcall] at hst
+      simp only at hst
+      subst hst
+      refine ⟨b, post, d', bd, ret', ?_⟩
+      rcases heff with ⟨h1, e, h2⟩ | ⟨h1, _⟩ | ⟨d2, b', bd2, v2, hc2, I2, hk2⟩
+      · rw [h2] at hv; cases hv
+      · rw [hcall] at h1
+        have : r.opId.next = r.opId := congrArg Replica.opId h1
+        exact absurd this (next_ne _)
+      · rw [hcall] at hc2
+        have hst2 := congrArg (fun x => x.1.state) hc2
+        simp only [DState.doc.injEq] at hst2
+        subst hst2
+        exact ⟨b', hp, hmeta, he, hview, I2, hk2 hk hck⟩
 
 end Orda.DPatch
